@@ -43,6 +43,13 @@ func (s Set) Equal(t Term) bool {
 			return false
 		}
 	}
+	// a set may have been written with a repeated element: same length and
+	// s within c does not make c within s
+	for _, id := range c {
+		if !s.has(id) {
+			return false
+		}
+	}
 	return true
 }
 
